@@ -40,7 +40,7 @@ def main():
         text = demo.read_text()
         import re
 
-        text2 = re.sub(r"/tmp/(?:seed|s2)_C\d\d(?!_out)", str(wt), text)
+        text2 = re.sub(r"/tmp/(?:seed|s2|s3|s4)_C\d\d(?!_out)", str(wt), text)
         d2 = wt / "_demo.py"
         d2.write_text(text2)
         env = dict(os.environ, PYTHONDONTWRITEBYTECODE="1")
